@@ -59,11 +59,23 @@ struct MImg {
     std::vector<uint8_t> fill; // nc elements
     std::vector<uint8_t> pix;  // [y][x][c]
     std::vector<uint8_t> wr;   // per pixel: written?
+    int   chunk_read_il = 0; // interlace GRreadchunk delivers in: follows GRreqimageil on the handle
+    bool  read_while_empty = false; // read through the slab interface before it had any data (this open of the file)
+    bool  slab_touched = false, chunk_written = false; // per open of the file: which interface has been used on it
     bool  has_lut = false;
     std::vector<uint8_t> lut;  // 256 x 3, entry-major (pixel interlace)
     int32 ri = FAIL;
     int   esz() const { return PTS[nt].size; }
 };
+
+// an image written through the old single-file 8-bit raster interface (DFR8), i.e. an old-style raster group,
+// optionally with the old run-length coding; found again through GR by its (unique) width
+struct MLegacy {
+    bool                 exists = false;
+    int                  w = 0, h = 0, comp = 0;
+    std::vector<uint8_t> pix;
+};
+const int NLEG = 2;
 
 struct Raster : Profile {
     const char *name() const override { return "raster"; }
@@ -85,7 +97,7 @@ struct Raster : Profile {
     }
     std::vector<std::string> required_probes() const override
     {
-        return {"partial-first-write", "strided-read", "strided-write", "read-il-line", "read-il-component", "write-il-line",
+        return {"partial-first-write", "strided-read", "legacy-rle", "legacy-read", "chunk-write", "chunk-read", "read-il-line", "read-il-component", "write-il-line",
                 "write-il-component", "fill-checked", "user-fill", "compressed", "chunked", "lut", "restart"};
     }
 
@@ -102,17 +114,32 @@ struct Raster : Profile {
                                       r.chance(0.4) ? 1 + (int64_t)r.below(1000) : 0, r.chance(0.25) ? 1 + (int64_t)r.below(3) : 0,
                                       r.chance(0.25) ? 1 : 0, r.range(1, 4), r.range(1, 4), r.chance(0.3) ? 1 : 0});
         };
-        p.ops.push_back(mkcreate(0));
+        auto mkcreate0 = mkcreate;
+        auto mkcreate2 = [&](int i) {
+            Op o = mkcreate0(i);
+            if (o.a[8] && r.chance(0.6)) { // square image with square chunks: whole-chunk I/O is exercised on these
+                o.a[1] = o.a[2] = r.range(2, 8);
+                o.a[9] = o.a[10] = r.range(1, 4);
+                if (r.chance(0.4)) { // types that need no number conversion take a separate path in the chunk calls
+                    o.a[4] = 8;
+                    o.a[3] = r.range(2, 4);
+                    o.a[5] = r.range(1, 2);
+                }
+            }
+            return o;
+        };
+        p.ops.push_back(mkcreate2(0));
         static const std::vector<int> w     = {/*create*/ 4, /*write*/ 26, /*read*/ 30, /*info*/ 4, /*endaccess*/ 4, /*restart*/ 4,
-                                               /*lutwrite*/ 3, /*lutread*/ 3, /*setfill*/ 2, /*readall*/ 5, /*writeall*/ 5};
+                                               /*lutwrite*/ 3, /*lutread*/ 3, /*setfill*/ 2, /*readall*/ 5, /*writeall*/ 5,
+                                               /*dfr8*/ 2,     /*legread*/ 3, /*legwrite*/ 1, /*chunkwrite*/ 4, /*chunkread*/ 4};
         static const char            *names[] = {"create", "write", "read", "info", "endaccess", "restart", "lutwrite", "lutread", "setfill",
-                                                 "readall", "writeall"};
+                                                 "readall", "writeall", "dfr8", "legread", "legwrite", "chunkwrite", "chunkread"};
         for (int i = 0; i < nops; i++) {
             int     k = r.weighted(w);
             int64_t d = (int64_t)r.below((uint64_t)nimg);
             switch (k) {
                 case 0:
-                    p.ops.push_back(mkcreate((int)d));
+                    p.ops.push_back(mkcreate2((int)d));
                     break;
                 case 1:
                 case 2: // rectangle by fractions; strides; data seed / read interlace
@@ -140,6 +167,20 @@ struct Raster : Profile {
                 case 10:
                     p.ops.push_back(mkop(0, names[k], {d, (int64_t)(r.next() >> 16)}));
                     break;
+                case 11: // legacy image: slot, height, run length of the pixel pattern, old RLE on/off, data seed
+                    p.ops.push_back(mkop(0, names[k], {(int64_t)r.below(NLEG), r.range(1, 3), (int64_t)r.below(6), (int64_t)r.below(2),
+                                                       (int64_t)(r.next() >> 16)}));
+                    break;
+                case 12:
+                    p.ops.push_back(mkop(0, names[k], {(int64_t)r.below(NLEG)}));
+                    break;
+                case 13:
+                    p.ops.push_back(mkop(0, names[k], {(int64_t)r.below(NLEG), (int64_t)r.below(6), (int64_t)(r.next() >> 16)}));
+                    break;
+                case 14:
+                case 15:
+                    p.ops.push_back(mkop(0, names[k], {d, (int64_t)r.below(8), (int64_t)r.below(8), (int64_t)(r.next() >> 16)}));
+                    break;
             }
         }
         p.ops.push_back(mkop(0, "restart", {}));
@@ -149,6 +190,8 @@ struct Raster : Profile {
     struct S {
         Ctx  &ctx;
         MImg  im[NIMG];
+        MLegacy leg[NLEG];
+        int   chunk_map = -1; // which of origin[0]/origin[1] is the chunk row: learnt from the first chunk write
         int32 fid = FAIL, gr = FAIL;
         bool  on_disk = false;
         explicit S(Ctx &c) : ctx(c) {}
@@ -164,8 +207,12 @@ struct Raster : Profile {
         if (s.gr == FAIL)
             s.ctx.fail("open-failed", "open-failed:grstart", "GRstart failed");
         s.on_disk = true;
-        for (int i = 0; i < NIMG; i++)
-            s.im[i].ri = FAIL;
+        for (int i = 0; i < NIMG; i++) {
+            s.im[i].ri            = FAIL;
+            s.im[i].chunk_read_il = MFGR_INTERLACE_PIXEL; // the requested read interlace lives with the open file's image record
+            s.im[i].read_while_empty = false;
+            s.im[i].slab_touched = s.im[i].chunk_written = false;
+        }
     }
     void close_gr(S &s)
     {
@@ -220,9 +267,12 @@ struct Raster : Profile {
         int32 ri = sel(s, i);
         if (GRreqimageil(ri, il) == FAIL)
             s.ctx.fail("reqil-refused", "reqil-refused", strf("GRreqimageil(%d) failed", il));
+        m.chunk_read_il = il;
         int32  start[2] = {x0, y0}, stride[2] = {sx, sy}, cnt[2] = {cx, cy};
         size_t n = (size_t)cx * (size_t)cy * (size_t)m.nc * (size_t)m.esz();
         std::vector<uint8_t> buf(n + 32, 0x5A);
+        if (!m.any_write)
+            m.read_while_empty = true;
         intn   r = GRreadimage(ri, start, (sx == 1 && sy == 1 && (x0 & 1)) ? NULL : stride, cnt, buf.data());
         s.ctx.tr((uint64_t)r);
         if (r == FAIL)
@@ -334,6 +384,59 @@ struct Raster : Profile {
         s.ctx.probe("lut");
     }
 
+    static std::vector<uint8_t> legacy_pixels(int w, int h, int runsel, uint64_t ds)
+    {
+        static const int     runs[] = {1, 3, 127, 128, 129, 200};
+        int                  rl     = runs[modn(runsel, 6)];
+        std::vector<uint8_t> v((size_t)w * (size_t)h);
+        for (int y = 0; y < h; y++)
+            for (int x = 0; x < w; x++)
+                v[(size_t)y * (size_t)w + (size_t)x] = (uint8_t)mix64(ds, (uint64_t)(y * 1000 + x / rl));
+        return v;
+    }
+    // old-style images have no GR name of ours; they are recognised by their unique width
+    int32 find_legacy(S &s, const MLegacy &L)
+    {
+        int32 n = 0, na = 0;
+        if (GRfileinfo(s.gr, &n, &na) == FAIL)
+            s.ctx.fail("info-failed", "info-failed:fileinfo", "GRfileinfo failed");
+        for (int32 ix = 0; ix < n; ix++) {
+            int32 ri = GRselect(s.gr, ix);
+            if (ri == FAIL)
+                continue;
+            char  nm[256] = "";
+            int32 nc = 0, nt = 0, il = 0, dims[2] = {0, 0}, nat = 0;
+            bool  hit = GRgetiminfo(ri, nm, &nc, &nt, &il, dims, &nat) != FAIL && dims[0] == L.w && dims[1] == L.h && nc == 1 &&
+                       strncmp(nm, "img", 3) != 0;
+            if (hit)
+                return ri;
+            GRendaccess(ri);
+        }
+        return FAIL;
+    }
+    void check_legacy(S &s, int li, const char *when)
+    {
+        MLegacy &L = s.leg[li];
+        int32    ri = find_legacy(s, L);
+        if (ri == FAIL)
+            s.ctx.fail("legacy-lost", "legacy-lost", strf("the %dx%d image written with DFR8addimage is not among the GR images (%s)", L.w, L.h, when));
+        int32                start[2] = {0, 0}, cnt[2] = {L.w, L.h};
+        std::vector<uint8_t> buf(L.pix.size() + 16, 0x5A);
+        if (GRreadimage(ri, start, NULL, cnt, buf.data()) == FAIL)
+            s.ctx.fail("read-refused", strf("read-refused:legacy:%s", L.comp ? "rle" : "plain"),
+                       strf("GRreadimage of the %dx%d DFR8 image failed (%s): %s", L.w, L.h, when, HEstring((hdf_err_code_t)HEvalue(1))));
+        s.ctx.st.checks++;
+        for (size_t j = 0; j < L.pix.size(); j++)
+            if (buf[j] != L.pix[j])
+                s.ctx.fail("value-mismatch", strf("value-mismatch:legacy:%s", L.comp ? "rle" : "plain"),
+                           strf("DFR8 image %dx%d (%s) read through GR: pixel (%zu,%zu) is %02x, written %02x (%s)", L.w, L.h,
+                                L.comp ? "old RLE" : "uncompressed", j % (size_t)L.w, j / (size_t)L.w, buf[j], L.pix[j], when));
+        if (buf[L.pix.size()] != 0x5A)
+            s.ctx.fail("buffer-overrun", "buffer-overrun:legacy", "GRreadimage of a DFR8 image wrote beyond the image");
+        GRendaccess(ri);
+        s.ctx.probe("legacy-read");
+    }
+
     void execute(Ctx &ctx) override
     {
         S           s(ctx);
@@ -428,7 +531,10 @@ struct Raster : Profile {
             else if (k == "write" || k == "read" || k == "readall" || k == "writeall") {
                 if (!m.exists)
                     done = false;
+                else if (m.chunk_written && p.knob("unguard_chunk_mixed", 0) == 0)
+                    done = false; // same known finding
                 else {
+                    m.slab_touched = true;
                     int x0 = (int)(o.arg(1) % m.w), y0 = (int)(o.arg(2) % m.h);
                     int sx = (int)std::max<int64_t>(1, o.arg(3)), sy = (int)std::max<int64_t>(1, o.arg(4));
                     int maxcx = (m.w - 1 - x0) / sx + 1, maxcy = (m.h - 1 - y0) / sy + 1;
@@ -523,6 +629,154 @@ struct Raster : Profile {
                 else
                     check_lut(s, di, modn(o.arg(1), 3), "in session");
             }
+            else if (k == "dfr8") {
+                MLegacy &L = s.leg[modn(o.arg(0), NLEG)];
+                if (L.exists)
+                    done = false;
+                else {
+                    close_gr(s); // the single-file interface opens the file itself
+                    L.w    = modn(o.arg(0), NLEG) == 0 ? 131 : 150;
+                    L.h    = (int)std::max<int64_t>(1, o.arg(1));
+                    L.comp = o.arg(3) ? 1 : 0;
+                    L.pix  = legacy_pixels(L.w, L.h, (int)o.arg(2), (uint64_t)o.arg(4));
+                    if (DFR8addimage(path.c_str(), L.pix.data(), L.w, L.h, (uint16)(L.comp ? COMP_RLE : 0)) == FAIL)
+                        ctx.fail("create-refused", "create-refused:dfr8", strf("DFR8addimage(%dx%d, compress %d) failed: %s", L.w, L.h, L.comp, HEstring((hdf_err_code_t)HEvalue(1))));
+                    L.exists  = true;
+                    s.on_disk = true;
+                    ctx.probe(L.comp ? "legacy-rle" : "legacy-plain");
+                    // this was a close and reopen for the GR images: they report the stored (pixel) interlace now
+                    open_gr(s, ndds, true);
+                    for (int q = 0; q < NIMG; q++)
+                        if (s.im[q].exists)
+                            check_info(s, q, "after reopen");
+                }
+            }
+            else if (k == "legread" || k == "legwrite") {
+                int      li = modn(o.arg(0), NLEG);
+                MLegacy &L  = s.leg[li];
+                if (!L.exists)
+                    done = false;
+                else if (k == "legread")
+                    check_legacy(s, li, "in session");
+                else if (L.comp && p.knob("unguard_comp_rewrite", 0) == 0)
+                    done = false; // known finding C09-compressed-rewrite also holds for old-style RLE images
+                else {
+                    int32 ri = find_legacy(s, L);
+                    if (ri == FAIL)
+                        ctx.fail("legacy-lost", "legacy-lost:write", "the DFR8 image is not among the GR images");
+                    std::vector<uint8_t> d = legacy_pixels(L.w, L.h, (int)o.arg(1), (uint64_t)o.arg(2));
+                    int32 start[2] = {0, 0}, cnt[2] = {L.w, L.h};
+                    if (GRwriteimage(ri, start, NULL, cnt, d.data()) == FAIL)
+                        ctx.fail("write-refused", strf("write-refused:legacy:%s", L.comp ? "rle" : "plain"),
+                                 strf("GRwriteimage (whole image) on the DFR8 image failed: %s", HEstring((hdf_err_code_t)HEvalue(1))));
+                    L.pix = d;
+                    GRendaccess(ri);
+                    ctx.probe("legacy-rewrite");
+                }
+            }
+            else if (k == "chunkwrite" || k == "chunkread") {
+                // whole-chunk access on square images with square chunks, diagonal chunks only: no doubt which
+                // origin index is the row
+                if (!m.exists || !m.chunked || m.w != m.h || m.cw != m.chh)
+                    done = false;
+                else if (m.slab_touched && p.knob("unguard_chunk_mixed", 0) == 0)
+                    done = false; // known finding C09-writechunk-mixed-with-slab: one interface per image and session
+                else {
+                    int   nch = (m.w + m.cw - 1) / m.cw, a = modn(o.arg(1), nch);
+                    int32 origin[2] = {a, a};
+                    int   esz = m.esz(), cs = m.cw;
+                    std::vector<uint8_t> buf((size_t)cs * (size_t)cs * (size_t)m.nc * (size_t)esz + 16, 0x5A);
+                    if (k == "chunkwrite") {
+                        for (int y = 0; y < cs; y++)
+                            for (int x = 0; x < cs; x++)
+                                for (int c = 0; c < m.nc; c++)
+                                    pvalue(PTS[m.nt], (uint64_t)o.arg(3), (uint64_t)((y * 64 + x) * 8 + c),
+                                           buf.data() + ilidx(m.il, x, y, c, cs, cs, m.nc) * (size_t)esz);
+                        if (GRwritechunk(sel(s, di), origin, buf.data()) == FAIL)
+                            ctx.fail("write-refused", "write-refused:chunk", strf("GRwritechunk(%d,%d) failed: %s", a, a, HEstring((hdf_err_code_t)HEvalue(1))));
+                        m.any_write = true;
+                        if (s.chunk_map < 0) {
+                            // Which axis of the chunk buffer is the image row?  The library's convention is learnt once
+                            // from what the slab interface shows for this chunk and must then hold for the whole run.
+                            int32 st[2] = {a * cs, a * cs}, cn[2] = {std::min(cs, m.w - a * cs), std::min(cs, m.h - a * cs)};
+                            std::vector<uint8_t> rb((size_t)cn[0] * (size_t)cn[1] * (size_t)m.nc * (size_t)esz);
+                            GRreqimageil(sel(s, di), MFGR_INTERLACE_PIXEL);
+                            m.chunk_read_il = MFGR_INTERLACE_PIXEL;
+                            if (GRreadimage(sel(s, di), st, NULL, cn, rb.data()) == FAIL)
+                                ctx.fail("read-refused", "read-refused:chunked", "GRreadimage of a chunk just written with GRwritechunk failed");
+                            bool normal = true, transposed = true;
+                            for (int y = 0; y < cn[1]; y++)
+                                for (int x = 0; x < cn[0]; x++)
+                                    for (int c = 0; c < m.nc; c++) {
+                                        const uint8_t *g = rb.data() + (((size_t)y * (size_t)cn[0] + (size_t)x) * (size_t)m.nc + (size_t)c) * (size_t)esz;
+                                        normal &= memcmp(g, buf.data() + ilidx(m.il, x, y, c, cs, cs, m.nc) * (size_t)esz, (size_t)esz) == 0;
+                                        transposed &= memcmp(g, buf.data() + ilidx(m.il, y, x, c, cs, cs, m.nc) * (size_t)esz, (size_t)esz) == 0;
+                                    }
+                            if (!normal && !transposed)
+                                ctx.fail("value-mismatch", strf("value-mismatch:chunk-vs-slab:il%d", m.il),
+                                         strf("GRwritechunk(%d,%d) on img%d (%dx%dx%d type %d il %d, chunks %dx%d): GRreadimage of the same region shows "
+                                              "neither the chunk buffer nor its transpose",
+                                              a, a, di, m.w, m.h, m.nc, (int)PTS[m.nt].code, m.il, cs, cs));
+                            s.chunk_map = normal ? 0 : 1;
+                            ctx.probe(normal ? "chunk-buffer-row-major" : "chunk-buffer-transposed");
+                        }
+                        for (int y = 0; y < cs; y++)
+                            for (int x = 0; x < cs; x++) {
+                                int px = a * cs + x, py = a * cs + y;
+                                if (px >= m.w || py >= m.h)
+                                    continue; // ghost cells of an edge chunk
+                                size_t pi = (size_t)py * (size_t)m.w + (size_t)px;
+                                int    bx = s.chunk_map ? y : x, by = s.chunk_map ? x : y;
+                                for (int c = 0; c < m.nc; c++)
+                                    memcpy(m.pix.data() + (pi * (size_t)m.nc + (size_t)c) * (size_t)esz,
+                                           buf.data() + ilidx(m.il, bx, by, c, cs, cs, m.nc) * (size_t)esz, (size_t)esz);
+                                m.wr[pi] = 1;
+                            }
+                        m.chunk_written = true;
+                        ctx.probe("chunk-write");
+                    }
+                    else if (s.chunk_map < 0)
+                        done = false; // the buffer convention is learnt from the first GRwritechunk
+                    else {
+                        // a chunk that was never written need not exist
+                        bool any = false;
+                        for (int y = 0; y < cs; y++)
+                            for (int x = 0; x < cs; x++)
+                                if (a * cs + x < m.w && a * cs + y < m.h)
+                                    any |= m.wr[(size_t)(a * cs + y) * (size_t)m.w + (size_t)(a * cs + x)] != 0;
+                        intn r = GRreadchunk(sel(s, di), origin, buf.data());
+                        if (r == FAIL) {
+                            if (any)
+                                ctx.fail("read-refused", "read-refused:chunk", strf("GRreadchunk(%d,%d) of a written chunk failed", a, a));
+                        }
+                        else {
+                            ctx.st.checks++;
+                            // GRreadchunk delivers in the read interlace requested on this handle (pixel unless asked)
+                            for (int y = 0; y < cs; y++)
+                                for (int x = 0; x < cs; x++) {
+                                    int px = a * cs + x, py = a * cs + y;
+                                    if (px >= m.w || py >= m.h)
+                                        continue;
+                                    size_t pi = (size_t)py * (size_t)m.w + (size_t)px;
+                                    if (!m.wr[pi])
+                                        continue;
+                                    for (int c = 0; c < m.nc; c++) {
+                                        const uint8_t *want = m.pix.data() + (pi * (size_t)m.nc + (size_t)c) * (size_t)esz;
+                                        int            bx = s.chunk_map ? y : x, by = s.chunk_map ? x : y;
+                                        const uint8_t *got  = buf.data() + ilidx(m.chunk_read_il, bx, by, c, cs, cs, m.nc) * (size_t)esz;
+                                        if (memcmp(got, want, (size_t)esz) != 0)
+                                            ctx.fail("value-mismatch", strf("value-mismatch:chunk:il%d", m.il),
+                                                     strf("GRreadchunk(%d,%d) of img%d (%dx%dx%d type %d, stored il %d, chunks %dx%d): pixel (%d,%d) comp "
+                                                          "%d is %s, model has %s",
+                                                          a, a, di, m.w, m.h, m.nc, (int)PTS[m.nt].code, m.il, cs, cs, px, py, c,
+                                                          hexs(got, (size_t)esz).c_str(), hexs(want, (size_t)esz).c_str()));
+                                    }
+                                }
+                            ctx.probe("chunk-read");
+                        }
+                    }
+                }
+            }
             else if (k == "restart") {
                 close_gr(s);
                 ctx.probe("restart");
@@ -535,6 +789,9 @@ struct Raster : Profile {
                             if (s.im[q].has_lut)
                                 check_lut(s, q, (int)(i + (size_t)q + 1) % 3, "after reopen");
                         }
+                    for (int q = 0; q < NLEG; q++)
+                        if (s.leg[q].exists)
+                            check_legacy(s, q, "after reopen");
                     close_gr(s);
                 }
             }
